@@ -1,7 +1,7 @@
 (* Extract.v — the single extraction file.  ExtrOcamlBasic only (directives listed in DESIGN §4). *)
 From Coq Require Extraction.
 From Coq Require Import ExtrOcamlBasic.
-From RV Require Import Api.
+From RV Require Import Api Memfs.Walk.
 Extraction "model.ml"
   api_components api_push api_render api_parent api_file_name api_extension api_path_eqb
   api_path_starts_with api_is_absolute api_clean api_go_clean api_clean_spec api_normal_form_b
@@ -14,4 +14,5 @@ Extraction "model.ml"
   api_str_trim_suffix api_opt_has api_take_while_ne
   api_mf_run api_c_run api_wh_trace api_expand api_abs
   api_xdg_home api_xdg_dirs api_getrids api_vfs_config_dir api_sym_mode api_revoking_mode
-  api_mfs_init api_mfs_step api_mfs_entries api_mfs_data api_files_list api_render_rpath api_wf_b api_mfs_of_lists api_mk_entry api_set_of_list api_rpath_of_string.
+  api_mfs_init api_mfs_step api_mfs_entries api_mfs_data api_files_list api_render_rpath api_wf_b api_mfs_of_lists api_mk_entry api_set_of_list api_rpath_of_string
+  w_follow w_min_depth w_max_depth w_sort_by_name w_dirs_first w_files_first w_contents_first w_dirs w_files w_maxdesc default_wopts.
